@@ -208,6 +208,16 @@ Proof.
     + rewrite (has_entry_false _ H). reflexivity.
 Qed.
 
+(* a whole sequence of Adds into one accumulator = the pointwise sum *)
+Definition qsum (xs : list masset) (p n : bytes) : Z := fold_right (fun x acc => qty x p n + acc) 0 xs.
+Lemma qty_add_seq xs : Forall wfm xs -> forall a p n,
+  qty (add_seq Big a xs) p n = qty a p n + qsum xs p n.
+Proof.
+  unfold add_seq. induction xs as [|x r IH]; intros F a p n; cbn [fold_left qsum fold_right]; [lia|].
+  inversion F as [|? ? Wx F']; subst. rewrite IH by exact F'. rewrite qty_add_big by exact Wx.
+  fold (qsum r p n). lia.
+Qed.
+
 (* the general (wrapped) form *)
 Lemma qty_add_wrapped w a b p n : wfm b ->
   qty (add w a b) p n =
